@@ -315,12 +315,18 @@ def write (W : Nat → Option Nat) (cb : CbPolicy) (p : Parser) (bytes : List Na
 def flush (p : Parser) : M Parser := pure p
 
 /-- `io::Write::write_all` — a PROVIDED method of the trait, which the crate does not override:
-`while !buf.is_empty() { n = self.write(buf)?; buf = &buf[n..] }`; `write` takes the whole buffer, so
-there is at most one call -/
+`while !buf.is_empty() { match self.write(buf) { Ok(0) => return Err(WriteZero), Ok(n) => buf = &buf[n..], … } }`.
+The loop is modelled as it is written (fuel = length + 1; `Ok(0)` ends it — an `io::Error`, not a panic); that it makes
+exactly one call is a THEOREM (`C04.writeAll_eq_process`), from the fact that `write` reports the whole buffer. -/
+def writeAllLoop (W : Nat → Option Nat) (cb : CbPolicy) : Nat → Parser → List Nat → M Parser
+  | 0, p, _ => pure p
+  | fuel + 1, p, buf =>
+    if buf.isEmpty then pure p else do
+      let (p', n) ← p.write W cb buf
+      if n == 0 then pure p' else writeAllLoop W cb fuel p' (buf.drop n)
+
 def writeAll (W : Nat → Option Nat) (cb : CbPolicy) (p : Parser) (bytes : List Nat) : M Parser :=
-  if bytes.isEmpty then pure p else do
-    let (p', _) ← p.write W cb bytes
-    pure p'
+  writeAllLoop W cb (bytes.length + 1) p bytes
 
 /-- `io::Write::write_vectored` — also provided, not overridden: `write` of the first non-empty slice
 (of an empty buffer when all are empty); returns how many bytes were taken -/
@@ -328,15 +334,22 @@ def writeVectored (W : Nat → Option Nat) (cb : CbPolicy) (p : Parser) (slices 
     M (Parser × Nat) :=
   p.write W cb ((slices.find? (fun s => !s.isEmpty)).getD [])
 
-/-- a caller that offers the slices not yet taken to `write_vectored` until all are taken (what
-`write_all_vectored` does): one `write` per non-empty slice, in order -/
-def writeVectoredAll (W : Nat → Option Nat) (cb : CbPolicy) (p : Parser) : List (List Nat) → M Parser
-  | [] => pure p
-  | s :: rest =>
-    if s.isEmpty then writeVectoredAll W cb p rest
-    else do
-      let (p', _) ← p.writeVectored W cb (s :: rest)
-      writeVectoredAll W cb p' rest
+/-- drop `n` bytes from the front of a list of slices (what `IoSlice::advance_slices` does) -/
+def advanceSlices : List (List Nat) → Nat → List (List Nat)
+  | [], _ => []
+  | s :: rest, n => if n < s.length then (s.drop n) :: rest else advanceSlices rest (n - s.length)
+
+/-- a caller that offers what has not been taken yet to `write_vectored` until everything is taken (the
+harness's `WV` op; `write_all_vectored` in std): fuel = total length + 1; a call that takes nothing ends it -/
+def writeVectoredAllLoop (W : Nat → Option Nat) (cb : CbPolicy) : Nat → Parser → List (List Nat) → M Parser
+  | 0, p, _ => pure p
+  | fuel + 1, p, slices =>
+    if slices.all (fun s => s.isEmpty) then pure p else do
+      let (p', n) ← p.writeVectored W cb slices
+      if n == 0 then pure p' else writeVectoredAllLoop W cb fuel p' (advanceSlices slices n)
+
+def writeVectoredAll (W : Nat → Option Nat) (cb : CbPolicy) (p : Parser) (slices : List (List Nat)) : M Parser :=
+  writeVectoredAllLoop W cb ((slices.map List.length).sum + 1) p slices
 
 def screen (p : Parser) : Screen := p.ws.screen
 
